@@ -118,6 +118,10 @@ pub fn run(ctx: &Ctx, rep: &mut Report) {
     for uni in ctx.my_universes(total) {
         let mut rng = ctx.rng_for(uni);
         rep.begin_universe(uni);
+        if uni == 0 {
+            // once per run: the history recorded under the pinned version, continued by the current code
+            crate::legacy::run(rep, "C11");
+        }
         let chain = rng.pick(&[b"stellar".to_vec(), b"stellar-testnet".to_vec(), b"s".to_vec()]).clone();
         let mut w = ItsWorld::new(&mut rng, &chain, b"hub-address", 4);
         w.trust(b"ethereum");
